@@ -9,3 +9,6 @@ func At(point string, key string) {}
 
 // Obj announces an internal object to the harness
 func Obj(kind string, v any) {}
+
+// AtErr marks a yield point that is keyed by an error
+func AtErr(point string, err error) {}
